@@ -74,6 +74,7 @@ for _p, _c in [("C08", "Classes_C08.cfg"), ("C12", "Classes_codec.cfg"), ("C13",
                ("C06", "Classes_C06.cfg"), ("C11", "Classes_C11.cfg"), ("C03", "Classes_C03.cfg")]:
     PROPS[_p]["quick"]["classes"] = _c
     PROPS[_p]["thorough"]["classes"] = _c
+PROPS["C03"]["quick"]["classes"] = "Classes_C03_quick.cfg"
 PROPS["C01"]["thorough"]["classes"] = "Classes_C01.cfg"
 PROPS["C02"]["thorough"]["classes"] = "Classes_C01.cfg"
 
